@@ -486,8 +486,14 @@ def IR.addOthers (ir : IR) (p : Patch) : Except Err IR :=
           | some ny => ny
           | none => y) }) (.ok ir)
 
+/-- every id the patch brought (blocks of all its sections, proxies, symbols) -/
+def Patch.ids (p : Patch) : List Nat :=
+  (p.text.blocks.map (·.id)) ++ p.proxies ++ p.syms.map (·.id) ++
+    (p.others.map (fun s => s.1.blocks.map (·.id))).flatten
+
+/-- the model's id counter stays above every id in use -/
 def IR.bumpNext (ir : IR) (p : Patch) : IR :=
-  let maxId := ((p.text.blocks.map (·.id)) ++ p.proxies ++ p.syms.map (·.id)).foldl max ir.next
+  let maxId := p.ids.foldl max ir.next
   { ir with next := max ir.next (maxId + 1) }
 
 /-- `insert(cache, block, offset, replacement_length, code)` -/
